@@ -514,8 +514,11 @@ RaftAddOther(s, id, kind) ==
           IN IF kind = "NV" THEN [s1 EXCEPT !.NV = @ \cup {id}] ELSE [s1 EXCEPT !.W = @ \cup {id}]
 
 RaftRemoveNode(s, id, r) ==
+  \* CODE: readIndex.removeConfirmation: a replica that is no member any more cannot vouch for the leader,
+  \* its confirmations of pending reads are dropped (they must not count towards the new, possibly smaller quorum)
   LET s0 == [s EXCEPT !.V = @ \ {id}, !.NV = @ \ {id}, !.W = @ \ {id},
-                      !.rem = [i \in DOMAIN @ \ {id} |-> @[i]], !.pcc = FALSE]
+                      !.rem = [i \in DOMAIN @ \ {id} |-> @[i]], !.pcc = FALSE,
+                      !.riq = [k \in 1..Len(@) |-> [@[k] EXCEPT !.conf = @ \ {id}]]]
       s1 == IF id = s.id /\ s0.role = "L" /\ G.LeaderStepsDownWhenRemoved
               THEN BecomeFollower(s0, s0.term, None, r) ELSE s0
       s2 == IF s1.role = "L" /\ s1.xfer = id THEN [s1 EXCEPT !.xfer = None] ELSE s1
